@@ -251,8 +251,10 @@ def check_cleanup(ctx, R="C14.cleanup"):
     else:
         holder = fb[idx]
         protected = False
-        if isinstance(holder, ast.Try) and any("veneer.endSimulation(self)" in unparse(s) for s in holder.finalbody):
-            protected = True
+        if isinstance(holder, ast.Try):
+            in_final = any("veneer.endSimulation(self)" in unparse(s) for s in holder.finalbody)
+            first_in_body = bool(holder.body) and "veneer.endSimulation(self)" in unparse(holder.body[0]) and not isinstance(holder.body[0], ast.Try)
+            protected = in_final or (idx == 0 and first_in_body)
         elif idx == 0:
             protected = True
         if protected:
